@@ -46,11 +46,11 @@ for p in props:
 hooks_commits = []
 man = {
     'version': 1,
-    'setup_cmd': '/venv/bin/python -c "import hypothesis" 2>/dev/null || /venv/bin/pip install --no-index --find-links /opt/veriftools/wheels hypothesis',
+    'setup_cmd': '(/venv/bin/python -c "import hypothesis" 2>/dev/null || /venv/bin/pip install --no-index --find-links /opt/veriftools/wheels hypothesis) && (test -d .deps/atheris || /venv/bin/pip install -q --no-index --find-links /opt/veriftools/wheels --target .deps atheris || true)',
     'hooks': {'guard': 'DEEP_VERIF', 'enable': 'no source hooks are needed: every edge (clock, executor, channel, plugins) is replaced from outside; the guard name is reserved',
               'baseline_off_cmd': BASE, 'source_commits': hooks_commits, 'add_only': True},
     'engines': [{'name': 'vf', 'path': 'vf/', 'serves_properties': sorted(CHECKS),
-                 'kind_free_text': 'Hypothesis-driven property-based testing harness (generated programs, object graphs, histories, schedules, fault placements) against reference models / differential oracles; complete enumeration for finite tables'}],
+                 'kind_free_text': 'Hypothesis-driven property-based testing harness (generated programs, object graphs, histories, schedules, fault placements) against reference models / differential oracles; complete enumeration for finite tables; atheris (libFuzzer) coverage-guided amplification of the same strategies and oracles in the thorough tier (vf/fuzz.py)'}],
     'checks': checks,
     'not_applicable': na,
     'notes': 'Entry point ./check <Cxx> [--tier quick|thorough] [--replay file]; honours VERIF_SEED, VERIF_TIER, VERIF_JOBS, VERIF_REPO. Exit 0 held / 1 VIOLATION / 2 harness error or inconclusive. Known findings: known_findings.json. Seeded-mutant results: DESIGN.md section 7 and seeded/.',
